@@ -15,7 +15,7 @@ ASSUMPTIONS = [
     "non-str inputs are concrete cases executed natively",
 ]
 OUTSIDE = ["strings longer than the bound", "non-ASCII code points outside the computed behaviour classes (they behave like the inert representatives: upper() not in the 20 letters, not whitespace)"]
-NMAX = {"quick": 4, "thorough": 6}
+NMAX = {"quick": 4, "thorough": 5}
 ITEM_TIMEOUT = {"quick": 900, "thorough": 3400}
 NONSTR = [None, 5, 3.5, b"AC", ["A", "C"], ("A",), True, {"A": 1}]
 
